@@ -147,6 +147,66 @@ macro_rules! ops_for_float {
                 }
             }
         }
+        // nearly coincident pairs: a colour and the same colour with one component moved by a few
+        // ulps / a relative 1e-7 (both are valid colours): differences computed through squares and
+        // cancellations must not go (slightly) negative under a square root
+        {
+            use palette::cam16::{Cam16UcsJab, Cam16UcsJmh};
+            use pv::fl::Fl;
+            let nudges = |x: T| -> Vec<T> {
+                let mut v = vec![x];
+                let (mut up, mut dn) = (x, x);
+                for k in 1..=40 {
+                    up = up.up();
+                    dn = dn.down();
+                    if [1, 2, 3, 5, 8, 13, 21, 40].contains(&k) {
+                        v.push(up);
+                        v.push(dn);
+                    }
+                }
+                v.push(x * (1.0 + 1e-7) as T);
+                v.push(x * (1.0 - 1e-7) as T);
+                v.push(x * (1.0 + 1e-5) as T);
+                v
+            };
+            let ls: [T; 4] = [0.0, 50.0, 73.3, 100.0];
+            let cs: [T; 6] = [0.0, 1e-7, 0.64, 30.0, 50.0, 128.0];
+            let hs: [T; 6] = [0.0, 30.0, 90.0, 180.0, 271.3, 359.999];
+            for &l in &ls {
+                for &cc in &cs {
+                    for &hh in &hs {
+                        let x = Lch::<palette::white_point::D65, T>::new(l, cc, hh);
+                        let xj = Cam16UcsJmh::<T>::new(l, cc * (0.4 as T), hh);
+                        let mut partners: Vec<[T; 3]> = vec![];
+                        for v in nudges(l) {
+                            partners.push([v, cc, hh]);
+                        }
+                        for v in nudges(cc) {
+                            partners.push([l, v, hh]);
+                        }
+                        for v in nudges(hh) {
+                            partners.push([l, cc, v]);
+                        }
+                        for p in partners {
+                            let y = Lch::<palette::white_point::D65, T>::new(p[0], p[1], p[2]);
+                            let yj = Cam16UcsJmh::<T>::new(p[0], p[1] * (0.4 as T), p[2]);
+                            let case = json!({"type": "Lch", "float": tn, "a": [l as f64, cc as f64, hh as f64], "b": [p[0] as f64, p[1] as f64, p[2] as f64], "a_bits": [format!("{:#x}", l.bits64()), format!("{:#x}", cc.bits64()), format!("{:#x}", hh.bits64())], "b_bits": [format!("{:#x}", p[0].bits64()), format!("{:#x}", p[1].bits64()), format!("{:#x}", p[2].bits64())]});
+                            finite3!($c, format!("C07/diff-near/Lch<{}>/delta_e", tn), case.clone(), [DeltaE::delta_e(x, y), DeltaE::delta_e(y, x)]);
+                            finite3!($c, format!("C07/diff-near/Lch<{}>/improved_delta_e", tn), case.clone(), [ImprovedDeltaE::improved_delta_e(x, y)]);
+                            finite3!($c, format!("C07/diff-near/Lch<{}>/ciede2000", tn), case.clone(), [Ciede2000::difference(x, y), Ciede2000::difference(y, x)]);
+                            finite3!($c, format!("C07/diff-near/Lch<{}>/improved_ciede2000", tn), case.clone(), [ImprovedCiede2000::improved_difference(x, y)]);
+                            finite3!($c, format!("C07/diff-near/Cam16UcsJmh<{}>/delta_e", tn), case.clone(), [DeltaE::delta_e(xj, yj), ImprovedDeltaE::improved_delta_e(xj, yj)]);
+                            // the same pair in rectangular coordinates
+                            let (xa, ya): (Lab<_, T>, Lab<_, T>) = (palette::convert::FromColorUnclamped::from_color_unclamped(x), palette::convert::FromColorUnclamped::from_color_unclamped(y));
+                            finite3!($c, format!("C07/diff-near/Lab<{}>/delta_e", tn), case.clone(), [DeltaE::delta_e(xa, ya), ImprovedDeltaE::improved_delta_e(xa, ya), Ciede2000::difference(xa, ya), HyAb::hybrid_distance(xa, ya), EuclideanDistance::distance_squared(xa, ya)]);
+                            let (xb, yb): (Cam16UcsJab<T>, Cam16UcsJab<T>) = (palette::convert::FromColorUnclamped::from_color_unclamped(xj), palette::convert::FromColorUnclamped::from_color_unclamped(yj));
+                            finite3!($c, format!("C07/diff-near/Cam16UcsJab<{}>/delta_e", tn), case.clone(), [DeltaE::delta_e(xb, yb), ImprovedDeltaE::improved_delta_e(xb, yb), HyAb::hybrid_distance(xb, yb)]);
+                            $n += 13;
+                        }
+                    }
+                }
+            }
+        }
         // RGB: contrast, blend modes and compositing with alpha on boundary pairs
         {
             let al = [u[0], u[1], u[3], u[5]];
@@ -209,6 +269,6 @@ pub fn run(ctx: &Ctx, total: &mut Collector) {
     ops_for_float!(f32, c, n);
     ops_for_float!(f64, c, n);
     c.add(sub, n, n, n, n);
-    c.exhaustive(sub, true, "boundary colours of Hsv/Hsl/Hwb/Okhsv/Okhsl/Lch/Oklch/Lab x 9 factors (lighten, darken, saturate, desaturate, _fixed forms, shift_hue) and mix partners; all ordered pairs of 120 Lab boundary colours through 11 difference measures; all ordered pairs of 72 LinSrgba boundary colours through 11 blend modes, 6 Porter-Duff operators, WCAG contrast; premultiply/unpremultiply; f32 and f64");
+    c.exhaustive(sub, true, "boundary colours of Hsv/Hsl/Hwb/Okhsv/Okhsl/Lch/Oklch/Lab x 9 factors (lighten, darken, saturate, desaturate, _fixed forms, shift_hue) and mix partners; all ordered pairs of 120 Lab boundary colours through 11 difference measures; nearly coincident pairs (144 Lch colours x each component moved by 1..40 ulps and by a relative 1e-7 / 1e-5) through the difference measures of Lch, Lab, Cam16UcsJmh, Cam16UcsJab; all ordered pairs of 72 LinSrgba boundary colours through 11 blend modes, 6 Porter-Duff operators, WCAG contrast; premultiply/unpremultiply; f32 and f64");
     total.merge(c);
 }
